@@ -227,21 +227,26 @@ void w_vss_get_data2(uint8_t* pdu, uint64_t shape, uint8_t* dest, uint8_t* out_c
 
 /* ---------------- VSS string arrays ---------------- */
 #define SA_MAX 320
+/* descriptor i lives in slot SLOT(i): contiguous, or scattered and in reverse order in a pool twice the size */
+#define SLOT(i, n, scattered) ((scattered) ? 2 * ((n) - 1 - (i)) + 1 : (i))
 /* lens_be: n 16-bit BE lengths; bytes: the strings' bytes back to back; packed: destination; returns data_length */
 uint64_t w_sa_pack2(uint8_t* lens_be, uint8_t* bytes, uint64_t n, uint8_t* packed, uint64_t null_for_empty);
 uint64_t w_sa_pack(uint8_t* lens_be, uint8_t* bytes, uint64_t n, uint8_t* packed) { return w_sa_pack2(lens_be, bytes, n, packed, 0); }
 /* null_for_empty: empty strings are given as {data_length 0, data NULL}, as a caller without text would */
 uint64_t w_sa_pack2(uint8_t* lens_be, uint8_t* bytes, uint64_t n, uint8_t* packed, uint64_t null_for_empty)
 {
-    VssDataString_t strs[SA_MAX];
+    VssDataString_t strs[2 * SA_MAX + 2];
     VssDataString_t* ptrs[SA_MAX];
     VssDataStringArray_t sa;
     uint64_t off = 0;
+    int scattered = (int)((null_for_empty >> 1) & 1);
+    null_for_empty &= 1;
     for (uint64_t i = 0; i < n && i < SA_MAX; i++) {
-        strs[i].data_length = (uint16_t)be_load(lens_be + 2 * i, 2);
-        strs[i].data = (null_for_empty && strs[i].data_length == 0) ? (char*)0 : (char*)bytes + off;
-        off += strs[i].data_length;
-        ptrs[i] = &strs[i];
+        VssDataString_t* d = &strs[SLOT(i, n, scattered)];
+        d->data_length = (uint16_t)be_load(lens_be + 2 * i, 2);
+        d->data = (null_for_empty && d->data_length == 0) ? (char*)0 : (char*)bytes + off;
+        off += d->data_length;
+        ptrs[i] = d;
     }
     sa.data_length = 0xA5A5;
     sa.data = packed;
@@ -265,21 +270,30 @@ uint64_t w_sa_unpack(uint8_t* packed, uint64_t data_length, uint64_t req, uint8_
 /* prefill: what the destination string objects' data_length holds beforehand */
 uint64_t w_sa_unpack2(uint8_t* packed, uint64_t data_length, uint64_t req, uint8_t* dest, uint8_t* offs_be, uint8_t* out_lens_be, uint64_t prefill)
 {
-    VssDataString_t strs[SA_MAX];
+    VssDataString_t strs[2 * SA_MAX + 2];
     VssDataString_t* ptrs[SA_MAX];
     VssDataStringArray_t sa;
     uint64_t changed = 0;
+    int scattered = (int)((prefill >> 16) & 1);
+    prefill &= 0xFFFF;
+    memset(strs, 0x5C, sizeof strs);
     sa.data_length = (uint16_t)data_length;
     sa.data = packed;
     for (uint64_t i = 0; i < req && i < SA_MAX; i++) {
-        strs[i].data_length = (uint16_t)prefill;
-        strs[i].data = dest ? (char*)dest + be_load(offs_be + 4 * i, 4) : (char*)0;
-        ptrs[i] = &strs[i];
+        VssDataString_t* d = &strs[SLOT(i, req, scattered)];
+        d->data_length = (uint16_t)prefill;
+        d->data = dest ? (char*)dest + be_load(offs_be + 4 * i, 4) : (char*)0;
+        ptrs[i] = d;
     }
     Avtp_Vss_DeserializeStringArray(&sa, ptrs, (uint16_t)req);
     for (uint64_t i = 0; i < req && i < SA_MAX; i++) {
-        be_store(out_lens_be + 2 * i, 2, strs[i].data_length);
-        if (strs[i].data != (dest ? (char*)dest + be_load(offs_be + 4 * i, 4) : (char*)0)) changed = 1;
+        VssDataString_t* d = &strs[SLOT(i, req, scattered)];
+        be_store(out_lens_be + 2 * i, 2, d->data_length);
+        if (d->data != (dest ? (char*)dest + be_load(offs_be + 4 * i, 4) : (char*)0)) changed = 1;
+    }
+    if (scattered) for (uint64_t i = 0; i <= 2 * req && i < 2 * SA_MAX; i += 2) {        /* the unused slots between the descriptors */
+        const uint8_t* b = (const uint8_t*)&strs[i];
+        for (unsigned k = 0; k < sizeof strs[0]; k++) if (b[k] != 0x5C) changed |= 4;
     }
     if (sa.data_length != (uint16_t)data_length || sa.data != packed) changed |= 2;
     return changed;
